@@ -172,6 +172,7 @@ type proxyWorld struct {
 	start   time.Time
 	reqCnt  map[int]int
 	aborted map[int]int
+	cond503 map[int]bool
 	dialN   int
 	srvLog  []string
 	caPool  *x509.CertPool
@@ -380,15 +381,7 @@ func (w *proxyWorld) originHandler(rw http.ResponseWriter, req *http.Request) {
 		}
 		switch mode {
 		case "304":
-			match := false
-			if inm := req.Header.Get("If-None-Match"); inm != "" && etag != "" {
-				match = strings.TrimPrefix(inm, "W/") == strings.TrimPrefix(etag, "W/")
-			} else if ims := req.Header.Get("If-Modified-Since"); ims != "" && lastMod != "" {
-				if t, err := http.ParseTime(ims); err == nil {
-					match = !w.versionBirth(ri, v).After(t)
-				}
-			}
-			if match {
+			if matchValidators(req, etag, lastMod, w.versionBirth(ri, v)) {
 				status = 304
 				out = nil
 			}
@@ -396,6 +389,17 @@ func (w *proxyWorld) originHandler(rw http.ResponseWriter, req *http.Request) {
 			status, out = 404, []byte("gone\n")
 		case "500":
 			status, out = 500, []byte("origin error\n")
+		case "503-once":
+			// a transient failure of the first conditional request, proper revalidation afterwards
+			w.mu.Lock()
+			first := !w.cond503[ri]
+			w.cond503[ri] = true
+			w.mu.Unlock()
+			if first {
+				status, out = 503, []byte("try again\n")
+			} else if matchValidators(req, etag, lastMod, w.versionBirth(ri, v)) {
+				status, out = 304, nil
+			}
 		}
 	}
 	if status == 200 || status == 206 {
@@ -538,6 +542,18 @@ func (w *proxyWorld) originHandler(rw http.ResponseWriter, req *http.Request) {
 	}
 	e.Finished = true
 	e.DoneSeq = w.nextSeq()
+}
+
+func matchValidators(req *http.Request, etag, lastMod string, birth time.Time) bool {
+	if inm := req.Header.Get("If-None-Match"); inm != "" && etag != "" {
+		return strings.TrimPrefix(inm, "W/") == strings.TrimPrefix(etag, "W/")
+	}
+	if ims := req.Header.Get("If-Modified-Since"); ims != "" && lastMod != "" {
+		if t, err := http.ParseTime(ims); err == nil {
+			return !birth.After(t)
+		}
+	}
+	return false
 }
 
 // refParseRange: RFC 9110 single byte-range against a representation of the given size.
@@ -975,7 +991,7 @@ func execProxyPlan(t *testing.T, p *ProxyPlan, ctl Ctl) (*proxyWorld, *Result) {
 	os.Chdir(dir)
 	os.MkdirAll(filepath.Join(dir, "var"), 0o755)
 	defer os.RemoveAll(dir)
-	w := &proxyWorld{p: p, dir: dir, res: res, reqCnt: map[int]int{}, aborted: map[int]int{}}
+	w := &proxyWorld{p: p, dir: dir, res: res, reqCnt: map[int]int{}, aborted: map[int]int{}, cond503: map[int]bool{}}
 	oldTransport := http.DefaultTransport
 	defer func() { http.DefaultTransport = oldTransport }()
 	bubble(t, res, func() {
